@@ -705,6 +705,19 @@ theorem tie_keyring : Generated.keyringWritePath = "filepath.Join(\"etc\", \"apk
     ∧ Generated.chainguardKeyName = "key.KeyID + \".rsa.pub\""
     ∧ Generated.keysDirPath = "etc/apk/keys" := by
   refine ⟨by rfl, by rfl, by rfl, by rfl⟩
+theorem tie_alpine_key : Generated.alpineKeyBase = "filepath.Base(u)"
+    ∧ Generated.alpineKeyUnescape = "url.PathUnescape(basefilenameEscape)"
+    ∧ Generated.alpineKeyFile = "filepath.Join(keysDirPath, basefilename)"
+    ∧ Generated.alpineKeyOpenArg = "filename" := by
+  refine ⟨by rfl, by rfl, by rfl, by rfl⟩
+/-- the writing calls of the etag route of the caching transport, in the code's order (`cacheTransportWrites`) -/
+theorem tie_cache_write_calls :
+    Generated.cache_getCalls = ["cacheFileFromEtag", "os.Stat", "t.retrieveAndSaveFile", "etagFromResponse", "cacheFileFromEtag"]
+    ∧ Generated.cache_retrieveCalls = ["os.MkdirAll", "os.CreateTemp", "Point:index.tmp", "tmp.Close", "io.Copy",
+        "Point:index.body", "paths.AdvertiseCachedFile", "Point:index.adv"]
+    ∧ Generated.cache_advertiseCalls = ["os.Stat", "os.Remove", "os.Symlink"]
+    ∧ Generated.cache_indexTempPattern = "*.tmp" := by
+  refine ⟨by rfl, by rfl, by rfl, by rfl⟩
 theorem tie_indexKeyNameCheck : Generated.indexKeyNameCheck = "keyName : strings.Contains(keyName, \"/\")"
     ∧ Generated.indexKeyCheckBeforeUse = true := by
   constructor <;> rfl
